@@ -64,7 +64,7 @@ def _system_case(ctx, max_m=6, max_ch=8):
     for _ in range(50):
         m = rng.randint(1, max_m)
         nch = rng.randint(2, max_ch)
-        fs = rng.choice([10.0, 100.0, 1000.0, 64.0])
+        fs = rng.choice([10.0, 100.0, 1000.0, 64.0, 51.2, 93.0, 102.4, 99.0, 12.5])  # incl. rates with 1/(1/fs) != fs in floating point
         cs = rng.random() < 0.5
         S = sysgen.random_system(rng, g, m, nch, fs, cs)
         r = rng.randint(1, nch)
@@ -151,7 +151,10 @@ def correspondence(ctx):
             mm = ctx.model("ac2mp", C=Cmat(C[n]), V=Cmat(rv), lam=[Cx(z) for z in lamc], abs=[R(v) for v in np.abs(lamc)], twopi=R(2 * np.pi))
             okm = max_rel_err([fl(v) for v in mm["fn"]], fn) <= 1e-12 and max_rel_err([fl(v) for v in mm["xi"]], xi) <= 1e-12
             PH = np.array([[cfl(z) for z in row] for row in mm["phi"]])
-            okm = okm and max_rel_err(PH, phi) <= 1e-10
+            raw = C[n] @ rv  # un-normalised shapes: a column that is tiny by cancellation carries a large relative rounding error
+            for j in range(raw.shape[1]):
+                cancel = (np.abs(C[n]) @ np.abs(rv[:, j])).max() / max(np.abs(raw[:, j]).max(), 1e-300)
+                okm = okm and PH.shape == np.asarray(phi).shape and max_rel_err(PH[j], np.asarray(phi)[j]) <= 1e-12 + 4e-16 * cancel * raw.shape[0]
             ctx.corr("ssi.ac2mp", bool(okm), {"A": A[n].tolist(), "C": C[n].tolist(), "dt": S.dt}, None, None, ("ac2mp", l, n))
         # ---- SSI_poles table pattern
         Fn, Xi, Phi, Lam, *_ = ssi.SSI_poles(Obs, A, C, ordmax, S.dt)
